@@ -44,7 +44,10 @@ func wellFormedDataAttr(k string) bool {
 		return false
 	}
 	for i := 0; i < len(rest); i++ {
-		if rest[i] == ';' || (rest[i] >= 'A' && rest[i] <= 'Z') {
+		// XML-compatible and without upper case (HTML "custom data attribute"): of the ASCII range only lower-case
+		// letters, digits, '.', '-' and '_' are name characters (':' is excluded by HTML)
+		ch := rest[i]
+		if ch < 0x80 && !(ch >= 'a' && ch <= 'z' || ch >= '0' && ch <= '9' || ch == '.' || ch == '-' || ch == '_') {
 			return false
 		}
 	}
@@ -213,7 +216,7 @@ func judgeC02(v *spec.View, in, out string, dom bool) (sig, what string) {
 var c02Attrs = []string{
 	` id=abc`, ` id=123`, ` id="a b"`, ` id=""`, ` id`, ` ID=abc`, ` id='abc'`, ` id="&#97;bc"`, ` id="&amp;#97;bc"`, ` id="abc&#10;x"`,
 	` title=t`, ` title="<x>"`, ` onclick=x`, ` name=n`, ` name=7`,
-	` data-x=1`, ` data-xmlfoo=1`, ` data-x;=1`, ` data-data-;x=1`, ` data-a"b<c=1`, ` data-=1`, ` data-data-xmlq=1`, ` xdata-y=1`, ` aria-data-x=1`,
+	` data-x=1`, ` data-xmlfoo=1`, ` data-x;=1`, ` data-data-;x=1`, ` data-a"b<c=1`, ` data-a'b=1`, ` data-a:b=1`, ` data-a.b_c-d=1`, ` data-=1`, ` data-data-xmlq=1`, ` xdata-y=1`, ` aria-data-x=1`,
 	` style="color:red"`, ` href="javascript:x"`, ` href=/ok`, ` lang=en`,
 	// values that match the element patterns of the policies (a rule must judge values by its value pattern, not by
 	// whatever other regexp the builder had at hand)
